@@ -416,6 +416,52 @@ def run(chk):
               "%s: the bytes of one type are read as another (a derived-to-base conversion of a non-primary base needs a pointer adjustment)" % e["why"])
     r8.require(3, "reinterpretation sites")
 
+    # ------------------------------------------------------------------ R6.9 script function -> std::function
+    r9 = chk.rule("R6.9", "a script function is wrapped as std::function<R(P...)> only after a test that some candidate's arity is variadic or equals sizeof...(P); otherwise bad_boxed_cast",
+                  "std::function wrappers hand a script function to C++ only for a signature it can be called with: the receiving C++ function is not entered with an uncallable wrapper, and overloads on std::function signatures are told apart")
+    fcs = [f for f in prog.fns if strip_targs(f["q"]) == "chaiscript::dispatch::functor" and f["tk"] == "inst" and f["params"] and "std::vector<" in prog.T(f, f["params"][0]["t"])]
+    r9.anchor(len(fcs) >= 3, "instantiations of dispatch::functor(vector<Const_Proxy_Function>, conversions) (found %d)" % len(fcs))
+    chk.touched(fcs)
+    verdicts = {}
+    for f in fcs:
+        flow = FnFlow(f)
+        builds = [n for n in walk(f["body"]) if n.get("k") == "call" and n.get("name") == "build_function_caller_helper"]
+        ok, why = False, "no build_function_caller_helper call"
+        if builds:
+            from ..paths import ref_inits
+            locs = ref_inits(f)
+            why = "the wrapper is built without a dominating arity test whose failing arm throws bad_boxed_cast"
+            for c, t in flow.facts(builds[0]):
+                c2 = strip_casts(c)
+                if t or c2.get("k") != "unop" or c2.get("op") != "!":
+                    continue
+                v = strip_casts(c2["e"])
+                init = locs.get(v.get("vid"), {}).get("init") if v.get("k") == "ref" else None
+                if init is None:
+                    continue
+                anyof = [x for x in walk(init) if x.get("k") == "call" and x.get("name") == "any_of"]
+                lam = [x for x in walk(init) if x.get("k") == "lambda" and x.get("fn") is not None]
+                if not anyof or not lam:
+                    continue
+                lf = prog.fn_by_id(f, lam[0]["fn"])
+                txt = " ".join(expr_str(prog, lf, x["e"]) for x in walk(lf["body"]) if x.get("k") == "return" and x.get("e") is not None) if lf else ""
+                variadic = "get_arity() == -1" in txt.replace("(-1)", "-1") or "== -1" in txt
+                equal = "arity(" in txt and "get_arity()" in txt and "==" in txt
+                thrower = None
+                for x in walk(f["body"]):
+                    if x.get("k") == "if" and strip_casts(x.get("cond") or {}) is c2 or (x.get("k") == "if" and x.get("cond") is c):
+                        thrower = x
+                throws = thrower is not None and always_exits(thrower.get("then")) and any(
+                    y.get("k") == "throw" and "bad_boxed_cast" in prog.T(f, y.get("tt")) for y in walk(thrower.get("then") or {}))
+                ok = variadic and equal and throws
+                why = "arity test found: variadic %s, equal-count %s, failing arm throws bad_boxed_cast %s" % (variadic, equal, throws)
+        verdicts.setdefault(ok, (f, why, 0))
+        verdicts[ok] = (verdicts[ok][0], verdicts[ok][1], verdicts[ok][2] + 1)
+    for ok, (f, why, n) in sorted(verdicts.items(), key=lambda kv: str(kv[0])):
+        r9.ob("dispatch::functor<Signature> checks the candidates' arity against the signature before it builds the wrapper (%d instantiations)%s" % (n, "" if ok else " - MISSING"), ok, f.where, f["q"],
+              why + ": a script function of the wrong arity is accepted where a std::function parameter is declared; the C++ function is entered and the mismatch only shows when it calls the wrapper")
+    r9.require(1, "obligations")
+
 
 def conjuncts(c):
     c = strip_casts(c)
